@@ -70,9 +70,10 @@ func (c12) Phases() []kit.Phase {
 // ---- scenario ----
 
 type c12Query struct {
-	Kind string `json:"kind"`
-	K    int    `json:"k"`
-	Text string `json:"text"`
+	Kind   string `json:"kind"`
+	K      int    `json:"k"`
+	Text   string `json:"text"`
+	FireAt int    `json:"cancel_at_poll,omitempty"` // the query's context is cancelled at this trampoline poll, i.e. while a Next is pending
 }
 
 type c12Op struct {
@@ -136,6 +137,9 @@ func c12Gen(g *kit.Lane, tier string) c12Scenario {
 	for i := 0; i < nq; i++ {
 		q := c12Query{Kind: c12Kinds[g.Choose(len(c12Kinds))]}
 		q.K = g.Choose(5)
+		if g.Choose(4) == 0 {
+			q.FireAt = 1 + g.Choose(40)
+		}
 		sc.Queries = append(sc.Queries, q)
 	}
 	n := 1 + g.Choose(10)
@@ -342,6 +346,11 @@ func (c12) Exec(r *kit.Run) {
 		var at func(int) c12Item
 		sc.Queries[i].Text, at = c12Build(sc.Queries[i], ids[i])
 		models[i] = &c12Model{at: at, last: "?", endErr: "nil"}
+		if sc.Queries[i].FireAt > 0 {
+			// the cancel will land inside some pending Next: from the start the model only demands what it demands of a
+			// cancelled query (answers in order or an early stop with the context's error, side effects a prefix)
+			models[i].cancelled = true
+		}
 	}
 	r.Out.Scenario = sc
 
@@ -372,7 +381,8 @@ func (c12) Exec(r *kit.Run) {
 			sols := make([]*prolog.Solutions, nq)
 			ctxs := make([]*kit.SimCtx, nq)
 			for i := range sc.Queries {
-				ctxs[i] = kit.NewSimCtx(0, context.Canceled)
+				ctxs[i] = kit.NewSimCtx(sc.Queries[i].FireAt, context.Canceled)
+
 				s, err := interp.QueryContext(ctxs[i], sc.Queries[i].Text+".")
 				if err != nil {
 					kit.Bug("c12 query did not parse: %s: %v", sc.Queries[i].Text, err)
@@ -568,6 +578,11 @@ func (c12) Exec(r *kit.Run) {
 					}
 				}
 				models[i].closed = true
+			}
+			for _, c := range ctxs {
+				if c.FiredByPoll() {
+					r.Fault("cancel-while-a-call-is-pending")
+				}
 			}
 			curOp = "finished"
 		})
